@@ -1018,7 +1018,7 @@ func (p *Core) closeResources(newConf *conf.Conf) {
 		newConf.RTSPEncryption != currentConf.RTSPEncryption ||
 		newConf.RTSPAddress != currentConf.RTSPAddress ||
 		!reflect.DeepEqual(newConf.RTSPAuthMethods, currentConf.RTSPAuthMethods) ||
-		newConf.RTSPUDPReadBufferSize != currentConf.RTSPUDPReadBufferSize ||
+		!reflect.DeepEqual(newConf.RTSPUDPReadBufferSize, currentConf.RTSPUDPReadBufferSize) ||
 		newConf.DumpPackets != currentConf.DumpPackets ||
 		newConf.UDPReadBufferSize != currentConf.UDPReadBufferSize ||
 		newConf.ReadTimeout != currentConf.ReadTimeout ||
@@ -1043,7 +1043,7 @@ func (p *Core) closeResources(newConf *conf.Conf) {
 		newConf.RTSPEncryption != currentConf.RTSPEncryption ||
 		newConf.RTSPSAddress != currentConf.RTSPSAddress ||
 		!reflect.DeepEqual(newConf.RTSPAuthMethods, currentConf.RTSPAuthMethods) ||
-		newConf.RTSPUDPReadBufferSize != currentConf.RTSPUDPReadBufferSize ||
+		!reflect.DeepEqual(newConf.RTSPUDPReadBufferSize, currentConf.RTSPUDPReadBufferSize) ||
 		newConf.DumpPackets != currentConf.DumpPackets ||
 		newConf.UDPReadBufferSize != currentConf.UDPReadBufferSize ||
 		newConf.ReadTimeout != currentConf.ReadTimeout ||
